@@ -319,3 +319,10 @@ def wire_names_only_for_exported(ctx):
         ctx.check(ok, f'{fi.qualname}:store accessiblename2attr', n, 'single writer, guarded by and keyed by accessible.export',
                   'a wire name is registered without the export guard (or by another writer / under another key): '
                   'an unexported accessible becomes addressable', fi)
+
+
+@rule('C04.R7', min_instances=3)
+def automatic_limit_checks(ctx):
+    """shared with C18.R2: the automatic check_<p> for <p>_min/_max/_limits is generated and collected for the whole MRO"""
+    from sa.rules import c18
+    c18.automatic_limit_checks(ctx)
